@@ -5,6 +5,8 @@ from __future__ import annotations
 import random
 from collections import Counter
 
+import torch
+
 from .. import engine, gen, spec
 from ..engine import Violation
 from ..runner import Outcome
@@ -121,7 +123,7 @@ def generate(rng: random.Random, tier: str) -> dict:
         style["never"] = [rng.randrange(n_params)]
     max_ev = 60 if tier == "thorough" else 24
     n_events = rng.choice([2, 3, 4, 6, 8, 10, 12, 16, 20, max_ev])
-    events = gen.gen_history(rng, params, groups, config, n_events, style=style)
+    events = gen.gen_history(rng, params, groups, config, n_events, style=style, poke_rate=0.04)
     return {"schema": 1, "property": ID, "engine": "single", "config": config, "groups": groups, "params": params, "world": None, "events": events, "style": style}
 
 
@@ -148,6 +150,11 @@ def execute_world(trace: dict) -> Outcome:
         for ei, ev in enumerate(trace["events"]):
             if ev["op"] == "set_hparam":
                 opt.param_groups[ev["group"]][ev["key"]] = ev["value"]
+                continue
+            if ev["op"] == "poke":
+                with torch.no_grad():
+                    spec._local(prog.params[ev["param"]]).mul_(ev["scale"])
+                probes["world_param_poked"] += 1
                 continue
             prog.set_grads(ev)
             pre_p = prog.snapshot()
